@@ -7,3 +7,5 @@ import SoxrModel.Properties.C05
 #print axioms Soxr.Properties.C05.schedule_invariance_plan
 #print axioms Soxr.Properties.C05.pull_push_oneshot
 #print axioms Soxr.Properties.C05.api_is_the_count_model
+#print axioms Soxr.Properties.C05.locality_runs
+#print axioms Soxr.Cr.coneI_sound
